@@ -146,6 +146,14 @@ def run(F, rep):
                 rep.ob("C02-PLACEHOLDER", "raw placeholder 0x7f in %s is written only under the not-yet-written guard and followed by a separator" % f.key.split("::", 1)[-1],
                        guarded and foll, detail="guards: %s; followed by separator: %s" % (conds[-3:], foll), site=site_of(f, t), key="C02-PLACEHOLDER | %s" % f.key)
     rep.floor("C02-SEP", nsep, 6, "separator pushes in pack builders (3 builders x placeholder+delta)")
+    # the two copies of the pack compressor (writing and compress-only variant) build and describe a pack the same way
+    from mirutil import effect_profile, profile_diff
+    ca, cb = F.funcs.get(AC + "flush_pack::{closure#0}"), F.funcs.get(AC + "flush_pack_compress_only::{closure#0}")
+    if rep.floor("C02-SIB", sum(1 for x in (ca, cb) if x), 2, "pack compressor closures (flush_pack, flush_pack_compress_only)"):
+        pa, pb = effect_profile(ca), effect_profile(cb)
+        dd = profile_diff(pa, pb)
+        rep.ob("C02-SIB", "both copies of the pack compressor perform the same buffer updates under the same guards (placeholder, separators, marker byte, metadata)",
+               not dd and sum(pa.values()) >= 6, detail=str(dd[:3]) if dd else "%d updates each" % sum(pa.values()), site="%s:%d" % (cb.file, cb.line_lo), key="C02-SIB | pack compressor copies")
     rep.floor("C02-PLACEHOLDER", nph, 3, "raw placeholder pushes")
     dec = F.funcs.get("ragc_core::decompressor::Decompressor::unpack_contig")
     if rep.floor("C02-SEP", 1 if dec else 0, 1, "reader's pack splitter"):
